@@ -199,6 +199,49 @@ def r11_7(prog: Program, rep: Report, rule="R11.7"):
             for x in T.walk(tm):
                 if x[0] == "call" and x[1][0] == "attr" and x[1][2] == "replace" and len(x[2]) == 2 and x[2][1] == ("const", "") and T.contains(x[2][0], lambda y: y[0] == "fmt" or y == ("const", ".")):
                     anywhere.append(T.show(x)[:80])
+    # ... and at *every* name in the text: 'mod.A | mod.B' names the module twice, and the text is evaluated in mod's own
+    # namespace, where `mod` is not bound.  Accepted: re.sub with a pattern that is <not preceded by a word character or a
+    # dot> + re.escape(module) + a literal dot (the regex is parsed, with a placeholder for the escaped module).
+    import re as _re
+
+    def boundary_sub(x):
+        if not (T.is_call_to(x, "re.sub") and len(x[2]) >= 3 and x[2][1] == ("const", "") and x[2][0][0] == "fstr"):
+            return False
+        text = ""
+        for part in x[2][0][1]:
+            if part[0] == "const":
+                text += str(part[1])
+            elif part[0] == "fmt" and T.is_call_to(part[1], "re.escape"):
+                text += "MODULE"
+            else:
+                return False
+        try:
+            items = list(_re._parser.parse(text))
+        except Exception:
+            return False
+        if len(items) < 3 or str(items[0][0]) != "ASSERT_NOT" or items[0][1][0] != -1:
+            return False
+        look = list(items[0][1][1])
+        if len(look) != 1 or str(look[0][0]) != "IN":
+            return False
+        members = {(str(k), v if not hasattr(v, "name") else str(v)) for k, v in look[0][1]}
+        if not ({("CATEGORY", "CATEGORY_WORD"), ("LITERAL", ord("."))} <= members):
+            return False
+        lits = "".join(chr(v) for k, v in items[1:] if str(k) == "LITERAL")
+        return lits == "MODULE." and len(items) == 1 + len("MODULE.")
+
+    everywhere = first_only = False
+    for p in P.paths_of(prog, fr):
+        for tm in p.all_terms():
+            for x in T.walk(tm):
+                if boundary_sub(x):
+                    everywhere = True
+                if x[0] == "call" and x[1][0] == "attr" and x[1][2] in ("removeprefix", "lstrip", "partition", "split") and x[2] and T.contains(x[2][0], lambda y: y[0] == "fmt" or y == ("const", ".")):
+                    first_only = True
+    if not everywhere and not first_only and not anywhere:
+        rep.undecided(rule, fr.qualname, fr.loc, "how forwardref() removes the module qualifier from the reference text was not recognised (known forms: boundary-aware re.sub; prefix-only; replace-anywhere)", detail="qualifier-everywhere")
+    else:
+      rep.check(everywhere, rule, fr.qualname, fr.loc, "the module qualifier is removed at every name boundary of the reference text", ("forwardref() removes the module qualifier at the start of the text only: in 'mod.A | mod.B' (or 'dict[str, mod.Item]') the second name keeps it, and the text is evaluated in mod's own namespace where `mod` is not bound -- NameError" if first_only else "forwardref() has no boundary-aware removal of the module qualifier from the reference text"), detail="qualifier-everywhere")
     rep.check(not anywhere, rule, fr.qualname, fr.loc, "the module qualifier is stripped from the reference name only where it is a prefix", f"forwardref() deletes '<module>.' wherever it occurs in the name (str.replace): a class Item.Part in a module named 'm' is referenced as 'ItePart', 'pathlib.Path' in a module named 'lib' as 'pathPath'", detail="prefix-strip")
     # the module a caller names wins: every other answer of the resolver is given only when none was named
     rm = prog.functions.get("typelib.py.refs._resolve_module_name")
